@@ -24,7 +24,7 @@ import GnarkVerif.Props.C01_limb4_babybear
 /-
 C01_limb4 — third part of the LIMB-level tie T (complements C01_limb, C01_limb2): the SECOND batch of word-level functions the limb
 translator emits (Gen/Limb/<Field>X.lean, regenerated from /repo on every run): IsZero IsOne NotEqual Equal LexicographicallyLargest Cmp
-MulBy3 MulBy5 _butterflyGeneric fromMont. 532 theorems, all for ALL inputs (every limb a word; `val < q` where the Go code assumes a
+MulBy3 MulBy5 _butterflyGeneric fromMont. 568 theorems, all for ALL inputs (every limb a word; `val < q` where the Go code assumes a
 canonical operand), namespace `GV.Limb.<f>` (`Props/C01_limb4_<f>.lean`, written by bin/mkc01limb4.py; generic lemmas in Proofs/Limb4.lean).
 
 * 18 multi-limb fields with 4 / 5 / 6 limbs (24 theorems each):
@@ -41,11 +41,11 @@ canonical operand), namespace `GV.Limb.<f>` (`Props/C01_limb4_<f>.lean`, written
   `butterflyGeneric_spec`  `(a, b) ↦ (a + b mod q, a − b mod q)` (`butterflyGeneric_eq`: `(Add a b, Sub a b)`).
 * goldilocks, koalabear, babybear (one word; 18 theorems each): the same statements on the single word (their packages have no
   word-level MulBy3 / MulBy5).
-* bw6_633_fp (10 limbs), bw6_761_fp (12 limbs): 23 theorems each — the predicates, `Add_spec`, `Double_spec`, `Sub_spec`
-  (= `GV.Field.add / double / sub`; absent from the first batch for these two fields), `MulBy3_spec`, `MulBy5_spec`,
-  `butterflyGeneric_spec` in full, and the STRUCTURE of the rest (`fromMont_eq`, `LexicographicallyLargest_eq`, `lexTail_iff`,
-  `half_limbs`, `Cmp_eq`, `cmpTail_eq`). NOT PROVED there: the value-level `fromMont_spec`, `LexicographicallyLargest_iff`, `Cmp_spec`,
-  because `fromMontGeneric_spec` (first batch) does not exist for the 10- and 12-limb fields.
+* bw6_633_fp (10 limbs: 40 theorems), bw6_761_fp (12 limbs: 42): the same 24 statements in full, preceded by the composed
+  theorems the first batch does not have for these two fields and which are proved here: `Add_spec`, `Double_spec`, `Sub_spec`
+  (= `GV.Field.add / double / sub`), the per-round `fromMontGeneric_s<k>_spec` (round = `ciosStep`, last = `reduceOnce`),
+  `fromMontGeneric_rounds` (the generated function = the composition of its rounds over limb tuples, kernel-checked) and
+  `fromMontGeneric_spec` (= `GV.Field.fromMont`). Nothing is skipped.
 The `…_eq` theorems identify two word programs: the kernel checks the definitional equality (`limb_kernel_rfl`, proof term `Eq.refl`);
 a syntactic comparison of the unfolded programs runs first so that a changed Go function is reported in seconds.
 -/
